@@ -66,7 +66,20 @@ def seed_layered():
     return s
 
 
-SEEDS = [("flat", seed_flat), ("forest", seed_forest), ("layered", seed_layered)]
+def seed_two_level():
+    """Depth-2 forest without layered products: expressible in every older composeinfo version (UID-prefix relations)."""
+    s = seed_flat()
+    kids = [vspec("optional", "optional", ["x86_64", "i386"], parent_uid="Server",
+                  paths={"repository": {"x86_64": "Server-optional/x86_64/os", "i386": "Server-optional/i386/os"}}),
+            vspec("HA", "addon", ["x86_64"], parent_uid="Server", paths={"packages": {"x86_64": "Server/x86_64/os/addons/HA"}})]
+    s["variants"] = [vspec("Server", arches=["x86_64", "i386"], children=kids,
+                           paths={"os_tree": {"x86_64": "Server/x86_64/os", "i386": "Server/i386/os"}}),
+                     vspec("Client", arches=["i386"], children=[vspec("extras", "variant", ["i386"], parent_uid="Client")])]
+    s["compose"].update({"type": "test", "respin": 12, "label": "Beta-1.2"})
+    return s
+
+
+SEEDS = [("flat", seed_flat), ("forest", seed_forest), ("layered", seed_layered), ("two-level", seed_two_level)]
 
 
 # ------------------------------------------------------------------------------------------------
@@ -232,7 +245,7 @@ def strip_private(obs):
 
 NAMES = ["Fedora", "Red Hat Enterprise Linux", "quote\" back\\slash\nnewline", "Näme 日本", ""]
 SHORTS = ["f", "RHEL", "my-prod", ""]
-VERSIONS = ["23", "7.1", "1.2.3", "Rawhide", "rawhide-1"]
+VERSIONS = ["23", "7.1", "1.2.3", "Rawhide", "rawhide-1", "20160101"]
 DATES = ["20160102", "00000000", "99999999"]
 RESPINS = [0, 1, 12, 10 ** 7]
 LABEL_VERSIONS = ["1.0", "12.34"]
